@@ -148,6 +148,7 @@ Proof.
       pose proof (G0_step qy). pose proof (J0_step py).
       change (cal_of (CR r)) with (mkCalendar (inner_Calendar_Reforming r (gap_of r))). unfold gap_of. rewrite EP, EQ. unfold gap_kind in *.
       unfold jdn_result, chk_jdn, in_i32b in GJ. unfold i32_min, i32_max in *.
+      clear DE DP V300 VMax VMaxJ VQ VQJ AJ AG CGb CJb MGJ JP JQ PD QD JO JOy E1 E2 EP EQ.
       destruct (Z.eqb_spec py qy) as [E|N].
       * pose proof (same_year_gap _ _ _ _ _ _ _ GI E) as SG. rewrite E in *.
         rf_norm; try reflexivity; try (repeat f_equal; lia); exfalso; lia.
